@@ -44,6 +44,8 @@ Definition py_index {A} (l:list A) (z:Z) : option A :=
   else nth_error l (Z.to_nat z).
 Definition p_index {A} (l:list A) (z:Z) : M A := lift (py_index l z).
 Definition py_len {A} (l:list A) : Z := Z.of_nat (length l).
+(** truthiness of a list / tuple, also written [len(l) > 0] *)
+Definition py_nonempty {A} (l:list A) : bool := match l with [] => false | _ :: _ => true end.
 
 (** [dict[int, Pattern]] (instantiation maps): insertion ordered, assignment to an existing key replaces *)
 Definition dict := list (N * term).
